@@ -30,29 +30,31 @@ theorem forward_call_args_eq : forward_call_args = [3, 0, 1, 2, 4, 3] := by deci
 
 section Semantics
 universe u v w
-variable {K : Type u} {V : Type v} {W : Type w} (o : Ops K V W)
+variable {K : Type u} {V : Type v} {W : Type w} (ox : OpsX K V W)
+
+local notation "o" => ox.toOps
 
 /-- the plan of `MRILogLikelihood.forward` computes `loglik` -/
 theorem loglik_plan_sem (s : K) (x : V) (y : W) :
-    evalPlan o [.v x, .w y, .k s] loglik_plan = some [.v (loglik o s x y)] := by
+    evalPlan ox [.v x, .w y, .k s] loglik_plan = some [.v (loglik o s x y)] := by
   rw [loglik_plan_eq]
   simp [evalPlan, evalNodes, evalNode, loglikPlan, loglik]
 
-theorem a_star_plan_sem (y : W) : evalPlan o [.w y] a_star_plan = some [.v (aStar o y)] := by
+theorem a_star_plan_sem (y : W) : evalPlan ox [.w y] a_star_plan = some [.v (aStar o y)] := by
   rw [a_star_plan_eq]
   simp [evalPlan, evalNodes, evalNode, aStarPlan, aStar]
 
-theorem a_star_a_plan_sem (x : V) : evalPlan o [.v x] a_star_a_plan = some [.v (aStarA o x)] := by
+theorem a_star_a_plan_sem (x : V) : evalPlan ox [.v x] a_star_a_plan = some [.v (aStarA o x)] := by
   rw [a_star_a_plan_eq]
   simp [evalPlan, evalNodes, evalNode, aStarAPlan, aStarA, aStar]
 
-theorem b_op_plan_sem (x : V) (lam : K) : evalPlan o [.v x, .k lam] b_op_plan = some [.v (bOp o lam x)] := by
+theorem b_op_plan_sem (x : V) (lam : K) : evalPlan ox [.v x, .k lam] b_op_plan = some [.v (bOp o lam x)] := by
   rw [b_op_plan_eq]
   simp [evalPlan, evalNodes, evalNode, bOpPlan, bOp, aStarA, aStar]
 
 /-- the statements of `cg` before the loop compute `cgInit` -/
 theorem cg_init_plan_sem (x z : V) (y : W) (lam : K) :
-    evalPlan o [.v x, .w y, .k lam, .v z] cg_init_plan =
+    evalPlan ox [.v x, .w y, .k lam, .v z] cg_init_plan =
       some [.v (cgInit o lam y z x).x, .v (cgInit o lam y z x).r, .v (cgInit o lam y z x).p,
             .k (cgInit o lam y z x).rr] := by
   rw [cg_init_plan_eq]
@@ -60,12 +62,110 @@ theorem cg_init_plan_sem (x z : V) (y : W) (lam : K) :
 
 /-- the loop body of `cg` computes `cgStep` with `B = B_op(·, S, mask, lambd)`, for each update type -/
 theorem cg_body_plan_sem (u : Update) (s : CGState K V) (lam : K) :
-    evalPlan o [.v s.x, .v s.r, .v s.p, .k s.rr, .k lam] (cg_body_plan u) =
+    evalPlan ox [.v s.x, .v s.r, .v s.p, .k s.rr, .k lam] (cg_body_plan u) =
       some [.v (cgStep o u (bOp o lam) s).x, .v (cgStep o u (bOp o lam) s).r,
             .v (cgStep o u (bOp o lam) s).p, .k (cgStep o u (bOp o lam) s).rr] := by
   rw [cg_body_plan_eq]
   cases u <;>
     simp [evalPlan, evalNodes, evalNode, cgBodyPlan, cgHeadNodes, betaNodes, cgStep, beta, bOp, aStarA, aStar]
+
+/-! ### phase 2: every re-implementation of the physics inside the unrolled models and engines evaluates to one of
+the model's forms (`softDC`, `sense`, `feOp`, `aOp`, `aStar`, `dcGradTwice`, `dcGradAfter`, `loglik`, `cirimKspace`,
+`hardDC`, `sensGrad`).  The lemmas are stated on the GENERATED plans: a sign, a mask on another term, a dropped
+conjugate (`reduce` → unknown), another coil axis or other spatial dims changes the plan and `simp` no longer closes. -/
+
+macro "site_simp" defs:Lean.Parser.Tactic.simpLemma,* : tactic =>
+  `(tactic| simp [evalPlan, evalNodes, evalNode, softDC, sense, feOp, aOp, aStar, dcGradTwice, dcGradAfter, loglik,
+      cirimKspace, hardDC, sensGrad, $defs,*])
+
+theorem site_varnet_softdc_sem (k y : W) :
+    evalPlan ox [.w k, .w y] site_varnet_softdc = some [.w (softDC o k y)] := by site_simp site_varnet_softdc, softDCPlan
+theorem site_varnet_reg_in_sem (k y : W) :
+    evalPlan ox [.w k, .w y] site_varnet_reg_in = some [.v (sense o k)] := by site_simp site_varnet_reg_in, sensePlan
+theorem site_varnet_reg_out_sem (x : V) :
+    evalPlan ox [.v x] site_varnet_reg_out = some [.w (feOp o x)] := by site_simp site_varnet_reg_out, feOpPlan
+theorem site_rvn_softdc_sem (k y : W) :
+    evalPlan ox [.w k, .w y] site_rvn_softdc = some [.w (softDC o k y)] := by site_simp site_rvn_softdc, softDCPlan
+theorem site_rvn_reg_in_sem (k y : W) :
+    evalPlan ox [.w k, .w y] site_rvn_reg_in = some [.v (sense o k)] := by site_simp site_rvn_reg_in, senseFirstPlan
+theorem site_rvn_reg_out_sem (x : V) :
+    evalPlan ox [.v x] site_rvn_reg_out = some [.w (feOp o x)] := by site_simp site_rvn_reg_out, feOpPlan
+theorem site_vsharp_dc_sem (x : V) (y : W) :
+    evalPlan ox [.v x, .w y] site_vsharp_dc = some [.v (dcGradAfter o x y)] := by site_simp site_vsharp_dc, dcGradAfterPlan
+theorem site_vsharp3d_dc_sem (x : V) (y : W) :
+    evalPlan ox [.v x, .w y] site_vsharp3d_dc = some [.v (dcGradAfter o x y)] := by
+  site_simp site_vsharp3d_dc, dcGradAfterPlan
+theorem site_vsharp_init_sem (x : V) (y : W) :
+    evalPlan ox [.v x, .w y] site_vsharp_init = some [.v (sense o y)] := by site_simp site_vsharp_init, senseYPlan
+theorem site_jointic_fwd_sem (x : V) : evalPlan ox [.v x] site_jointic_fwd = some [.w (aOp o x)] := by
+  site_simp site_jointic_fwd, aOpPlan
+theorem site_jointic_bwd_sem (k : W) : evalPlan ox [.w k] site_jointic_bwd = some [.v (aStar o k)] := by
+  site_simp site_jointic_bwd, aStarPlan
+theorem site_iterdual_fwd_sem (x : V) : evalPlan ox [.v x] site_iterdual_fwd = some [.w (aOp o x)] := by
+  site_simp site_iterdual_fwd, aOpPlan
+theorem site_iterdual_bwd_sem (k : W) : evalPlan ox [.w k] site_iterdual_bwd = some [.v (aStar o k)] := by
+  site_simp site_iterdual_bwd, aStarPlan
+theorem site_lpd_fwd_sem (x : V) : evalPlan ox [.v x] site_lpd_fwd = some [.w (aOp o x)] := by
+  site_simp site_lpd_fwd, aOpPlan
+theorem site_lpd_bwd_sem (k : W) : evalPlan ox [.w k] site_lpd_bwd = some [.v (aStar o k)] := by
+  site_simp site_lpd_bwd, aStarPlan
+theorem site_xpd_fwd_sem (x : V) : evalPlan ox [.v x] site_xpd_fwd = some [.w (aOp o x)] := by
+  site_simp site_xpd_fwd, aOpPlan
+theorem site_xpd_bwd_sem (k : W) : evalPlan ox [.w k] site_xpd_bwd = some [.v (aStar o k)] := by
+  site_simp site_xpd_bwd, aStarPlan
+theorem site_engine_fwd_sem (x : V) : evalPlan ox [.v x] site_engine_fwd = some [.w (aOp o x)] := by
+  site_simp site_engine_fwd, aOpPlan
+theorem site_engine_bwd_sem (k : W) : evalPlan ox [.w k] site_engine_bwd = some [.v (aStar o k)] := by
+  site_simp site_engine_bwd, aStarPlan
+theorem site_jointic_image_dc_sem (x : V) (y : W) :
+    evalPlan ox [.v x, .w y] site_jointic_image_dc = some [.v (dcGradTwice o x y)] := by
+  site_simp site_jointic_image_dc, dcGradTwicePlan
+theorem site_jointic_sens_grad_sem (x : V) (y : W) :
+    evalPlan ox [.v x, .w y] site_jointic_sens_grad = some [.w (sensGrad ox x y)] := by
+  site_simp site_jointic_sens_grad, sensGradPlan
+theorem site_iterdual_dc_sem (x : V) (y : W) :
+    evalPlan ox [.v x, .w y] site_iterdual_dc = some [.v (dcGradTwice o x y)] := by
+  site_simp site_iterdual_dc, dcGradTwicePlan
+theorem site_iterdual_init_sem (x : V) (y : W) :
+    evalPlan ox [.v x, .w y] site_iterdual_init = some [.v (sense o y)] := by site_simp site_iterdual_init, senseYPlan
+/-- MRIVarSplitNet's DC step is literally the likelihood-gradient block (with `scaling_factor`) -/
+theorem site_varsplit_dc_sem (x : V) (y : W) (s : K) :
+    evalPlan ox [.v x, .w y, .k s] site_varsplit_dc = some [.v (loglik o s x y)] := by
+  site_simp site_varsplit_dc, loglikCorePlan
+theorem site_kiki_image_sem (k : W) : evalPlan ox [.w k] site_kiki_image = some [.v (aStar o k)] := by
+  site_simp site_kiki_image, aStarPlan
+theorem site_kiki_kspace_sem (x : V) : evalPlan ox [.v x] site_kiki_kspace = some [.w (aOp o x)] := by
+  site_simp site_kiki_kspace, aOpPlan
+theorem site_cirim_softdc_sem (k y : W) (x : V) :
+    evalPlan ox [.w k, .w y, .v x] site_cirim_softdc = some [.w (softDC o k y)] := by
+  site_simp site_cirim_softdc, softDCPlan
+theorem site_cirim_image_sem (k y : W) (x : V) :
+    evalPlan ox [.w k, .w y, .v x] site_cirim_image = some [.v (sense o k)] := by site_simp site_cirim_image, sensePlan
+theorem site_cirim_kspace_sem (k y : W) (x : V) :
+    evalPlan ox [.w k, .w y, .v x] site_cirim_kspace = some [.w (cirimKspace o x k y)] := by
+  site_simp site_cirim_kspace, cirimKspacePlan
+theorem site_ssl_harddc_sem (x : V) (y : W) :
+    evalPlan ox [.v x, .w y] site_ssl_harddc = some [.w (hardDC ox x y)] := by site_simp site_ssl_harddc, hardDCPlan
+theorem site_jssl_harddc_sem (x : V) (y : W) :
+    evalPlan ox [.v x, .w y] site_jssl_harddc = some [.w (hardDC ox x y)] := by site_simp site_jssl_harddc, hardDCPlan
+theorem site_vsharp_ssl_harddc0_sem (x : V) (y : W) :
+    evalPlan ox [.v x, .w y] site_vsharp_ssl_harddc0 = some [.w (hardDC ox x y)] := by
+  site_simp site_vsharp_ssl_harddc0, hardDCPlan
+theorem site_vsharp_ssl_harddc1_sem (x : V) (y : W) :
+    evalPlan ox [.v x, .w y] site_vsharp_ssl_harddc1 = some [.w (hardDC ox x y)] := by
+  site_simp site_vsharp_ssl_harddc1, hardDCPlan
+theorem site_vsharp_jssl_harddc0_sem (x : V) (y : W) :
+    evalPlan ox [.v x, .w y] site_vsharp_jssl_harddc0 = some [.w (hardDC ox x y)] := by
+  site_simp site_vsharp_jssl_harddc0, hardDCPlan
+theorem site_vsharp_engine_harddc_sem (x : V) (y : W) :
+    evalPlan ox [.v x, .w y] site_vsharp_engine_harddc = some [.w (hardDC ox x y)] := by
+  site_simp site_vsharp_engine_harddc, hardDCPadPlan
+theorem site_vsharp3d_engine_harddc_sem (x : V) (y : W) :
+    evalPlan ox [.v x, .w y] site_vsharp3d_engine_harddc = some [.w (hardDC ox x y)] := by
+  site_simp site_vsharp3d_engine_harddc, hardDCPadPlan
+
+theorem rim_llg_call_args : rim_llg_call_args_ok = true := by decide
+theorem cirim_llg_call_args : cirim_llg_call_args_ok = true := by decide
 
 end Semantics
 end DirectVerif.Bridge.C19
